@@ -180,7 +180,21 @@ def run_replay(path, timeout=600):
     out = (p.stdout + p.stderr)[-4000:]
     if p.returncode == 1:
         return True, out
+    if p.returncode < 0:
+        # the real code crashed (SIGSEGV / SIGBUS / SIGABRT) on the solver's input: confirmation
+        return True, out + "\n[replay process killed by signal %d]" % -p.returncode
     if p.returncode == 0:
+        # out-of-bounds READS leave no trace in guard bytes: replay once more on an AddressSanitizer
+        # build of the C kernel (an ASan report = confirmation)
+        asan = subprocess.run(["gcc", "-print-file-name=libasan.so"], capture_output=True, text=True).stdout.strip()
+        if asan and os.path.exists(asan):
+            env2 = dict(env)
+            env2.update(LD_PRELOAD=asan, VERIF_ASAN="1", ASAN_OPTIONS="detect_leaks=0:abort_on_error=0:exitcode=1")
+            p2 = subprocess.run([VENV_PY, "-m", "vlib.replay", path], cwd=VERIF, env=env2, capture_output=True,
+                                text=True, timeout=timeout)
+            out2 = (p2.stdout + p2.stderr)
+            if "AddressSanitizer" in out2 or p2.returncode == 1:
+                return True, out2[-4000:]
         return False, out
     return None, out
 
